@@ -556,9 +556,13 @@ def r132(ctx, rep, f, ev, cg, reach, O):
         rep.missing("R13.2", pt)
     ptt = CDP + "preprocess_tdt"
     if ptt in f.fns:
-        out = [o for o in ev.collect_ifs(ptt, [Sym("self"), Sym("sl")]) if "cond" in o]
+        ev.bitfields = True   # the TDT flag byte as named bits: packet_done is bit 0 of it, however it is tested
+        try:
+            out = [o for o in ev.collect_ifs(ptt, [Sym("self"), Sym("sl")]) if "cond" in o]
+        finally:
+            ev.bitfields = False
         cl = [o for o in out if "readout_frame_validator" in ckey(o["cond"])]
-        want = "and[Eq(sym(BitAnd(sym(unwrap(sym(self.status_words.tdt)).res0_lane_starts_violation_res1_transmission_timeout_packet_done),0x1)),0x1);symc(isSome(sym(self.readout_frame_validator)))]"
+        want = "and[any(unwrap(sym(self.status_words.tdt)).res0_lane_starts_violation_res1_transmission_timeout_packet_done[0]);symc(isSome(sym(self.readout_frame_validator)))]"
         ok = len(cl) == 1 and ckey(cl[0]["cond"]) == want
         if ok:
             t2 = cl[0]["tb"]
